@@ -110,6 +110,9 @@ pdgstrf_pivotL(
 
     /* Test for singularity */
     if ( pivmax == 0.0 ) {
+#ifdef SLU_MT_VERIF
+	SLU_MT_VERIF_EVENT(SLUV_SINGULAR, pnum, jcol, nsupc, nsupr, Glu);
+#endif
 	*pivrow = lsub_ptr[pivptr];
 	perm_r[*pivrow] = jcol;
 	inv_perm_r[jcol] = *pivrow;
